@@ -33,6 +33,26 @@ pub struct RunOpts {
     pub ballast: Option<f64>,
 }
 
+impl RunOpts {
+    pub fn to_json(&self) -> serde_json::Value {
+        serde_json::json!({
+            "mode": match self.mode { GcMode::Normal => "normal", GcMode::Suppress => "suppress", GcMode::ForceOnce => "force-once" },
+            "audit": match self.audit { AuditMode::Off => 0, AuditMode::Every => 1, AuditMode::EveryNth(n) => n },
+            "cap": self.cap,
+            "ballast": self.ballast,
+        })
+    }
+    pub fn from_json(v: &serde_json::Value) -> RunOpts {
+        RunOpts {
+            mode: match v["mode"].as_str() { Some("suppress") => GcMode::Suppress, _ => GcMode::Normal },
+            audit: match v["audit"].as_u64() { Some(0) | None => AuditMode::Off, Some(1) => AuditMode::Every, Some(n) => AuditMode::EveryNth(n) },
+            cap: v["cap"].as_u64().unwrap_or(300_000),
+            record_ops: false,
+            ballast: v["ballast"].as_f64(),
+        }
+    }
+}
+
 impl Default for RunOpts {
     fn default() -> Self {
         RunOpts {
@@ -73,6 +93,7 @@ pub fn run_case(case: &Case, opts: &RunOpts) -> RunOut {
             "seq": seq,
             "signature": "host process aborted",
             "case": case.to_json(),
+            "run_opts": opts.to_json(),
         });
         let _ = std::fs::write(p, serde_json::to_string_pretty(&doc).unwrap());
     }
